@@ -751,13 +751,15 @@ impl Parser {
     fn parse_func_scalar(&mut self) -> Result<Option<Expr>, String> {
         let mut lexem = self.next_lexem();
         let mut minus = false;
+        let mut plus = false;
 
         if let Some(Lexem::ArithmeticOperator(ref s)) = lexem {
             if s == "-" {
                 minus = true;
                 lexem = self.next_lexem();
             } else if s == "+" {
-                // unary plus: skip the sign
+                // unary plus: nothing to do for a column, a number keeps it (`+2` is a date offset too)
+                plus = true;
                 lexem = self.next_lexem();
             } else {
                 self.drop_lexem();
@@ -790,7 +792,11 @@ impl Parser {
                     }
                 }
 
-                let mut expr = Expr::value(s.to_string());
+                let text = match plus && !s.is_empty() && s.bytes().all(|b| b.is_ascii_digit()) {
+                    true => format!("+{}", s),
+                    false => s.to_string(),
+                };
+                let mut expr = Expr::value(text);
                 expr.minus = minus;
 
                 Ok(Some(expr))
@@ -909,6 +915,15 @@ impl Parser {
                                         ));
                                     }
                                 },
+                                // a position too large for any number type is still a position
+                                _ if !ordering_field.is_empty()
+                                    && ordering_field.bytes().all(|b| b.is_ascii_digit()) =>
+                                {
+                                    return Err(format!(
+                                        "Error parsing order by: there is no column {}",
+                                        ordering_field
+                                    ));
+                                }
                                 _ => {
                                     self.drop_lexem();
                                     match self.parse_expr()? {
